@@ -43,7 +43,7 @@ ENGINES = [
          kind_free_text='Verus on SkipRetVal::construct and From<SkipResult> (separate file because of a Verus name-resolution limit)'),
     dict(name='V-cg', path='vx/contracts/v_cg.py', serves_properties=['C01'],
          kind_free_text='Verus on ByteClass::{new,add_byte,to_table}, Comparisons, StateType of logos-codegen/src/graph/mod.rs'),
-    dict(name='V-lex', path='vx/lexgen.py', serves_properties=['C02', 'C03', 'C05', 'C06', 'C07', 'C14', 'C20'],
+    dict(name='V-lex', path='vx/lexgen.py', serves_properties=['C02', 'C03', 'C05', 'C06', 'C07', 'C13', 'C14', 'C20'],
          kind_free_text='Verus on the text logos_codegen::generate emits (through /repo\'s logos-cli, rebuilt from the working tree on every run) for corpus '
                         'definitions, both code generators: every state function / the state-machine loop under contract; LEX, termination, overflow and '
                         'index safety proved for all inputs'),
@@ -204,7 +204,7 @@ def vlex_not_covered(spec):
     return sorted('%s/%s' % (d, cg) for d in spec.get('defs_thorough', spec['defs']) for cg in spec.get('codegens', ('tailcall', 'state_machine'))
                   if (costs.get('%s/%s' % (d, cg)) or {}).get('status') != 'ok')
 
-VLEX_ALL = ['B1', 'B2', 'B3', 'B4', 'B5', 'B6', 'B7', 'B8', 'E1', 'E3', 'S1', 'S2', 'S3', 'L1', 'I2', 'P2', 'P2T', 'M1B', 'M2B', 'O3', 'O3A', 'Q3', 'Q4',
+VLEX_ALL = ['K1', 'B1', 'B2', 'B3', 'B4', 'B5', 'B6', 'B7', 'B8', 'E1', 'E3', 'S1', 'S2', 'S3', 'L1', 'I2', 'P2', 'P2T', 'M1B', 'M2B', 'O3', 'O3A', 'Q3', 'Q4',
             'L2', 'I1', 'P1', 'P1T', 'Q1', 'Q2', 'U1', 'U2', 'E2']
 VLEX_NOTE = ('V-lex: the text logos_codegen::generate emits (obtained through /repo\'s logos-cli on every run) for the corpus definitions %s, '
              'both code generators where the state-machine loop stays within the solver budget, is proved - for ALL inputs, no length bound - to satisfy the '
@@ -388,13 +388,14 @@ PLAN = {
         explanation='modes_agree harness',
     ),
     'C13': dict(
+        vlex=dict(defs=['K1', 'S2', 'Q1'], codegens=('tailcall',), canary_defs=['K1']),
         level='model_checking', engine='verus+kani',
         verus=[('v_src', BOTH), ('v_skip', BOTH)],
         twins=SRC_TWINS,
         kani=klex_suite('K-lex callbacks', SPEC_KINDS, ['K1', 'K2'],
                         covers=['token produced', 'error produced', 'token after a skipped region'], quick_per_def=12,
                         bounded=BOUND_NOTE % 'K1 (one callback of every CallbackRetVal type, bump inside a callback), K2 (error callback, every SkipRetVal type)'),
-        technique='Verus proof, generic in all type parameters, of the 12 CallbackRetVal::construct impls, the 4 SkipRetVal impls and From<SkipResult>; bounded model checking (Kani) of the generated dispatch with recording callbacks',
+        technique='Verus proof, generic in all type parameters, of the 12 CallbackRetVal::construct impls, the 4 SkipRetVal impls and From<SkipResult>; Verus proof (V-lex) that the generated dispatch of K1 (a callback of every CallbackRetVal type, bump inside callbacks), S2 (logos::skip) and Q1 (inline closure) keeps the lexer contract LEX for all inputs under an assumed callback contract; bounded model checking (Kani) of the generated dispatch with recording callbacks',
         level_text='Each construct impl is proved to map the callback value to Emit/Error/DefaultError/Skip exactly as the documented table says, for all values and type parameters; '
                    'that the generated leaf bodies call the callback once per winning match with span()/slice() equal to the match and apply the table row is checked bounded.',
         level_note='callbacks are assumed total (con.requires for all arguments).',
